@@ -125,6 +125,9 @@ def scenarios(hp: bytes, refused: bytes, hp2: bytes = b'h2:2') -> Dict[str, Any]
     S['reverse-upstream-hangs-up-then-followup'] = lambda cv: [('send', b'GET /ra/h1 HTTP/1.1\r\nHost: r.test\r\nX-Conv: %s\r\nX-Behave: close-after\r\n\r\n' % cv),
                                                                ('responses', 1, [b'GET']), ('advance', 5),
                                                                ('send', b'GET /ra/h2 HTTP/1.1\r\nHost: r.test\r\nX-Conv: %s\r\n\r\n' % cv), ('eof',)]
+    # the client says "nothing more from me" right behind its request and only then reads: the answer is still owed in full
+    S['web-route-halfclose-then-read'] = lambda cv: [('send', b'GET /wa/1 HTTP/1.1\r\nHost: w.test\r\nX-Req-Id: %s\r\n\r\n' % cv), ('shutdown-wr',), ('eof',)]
+    S['static-large-halfclose-then-read'] = lambda cv: [('send', b'GET /large.bin?%s HTTP/1.1\r\nHost: s.test\r\n\r\n' % cv), ('shutdown-wr',), ('eof',)]
     S['client-reset-mid-request'] = lambda cv: [('send', get(b'/never-sent', cv)[:30]), ('advance', 5), ('reset',)]
     S['client-closes-while-origin-silent'] = lambda cv: [('send', get(b'/never', cv)), ('origin-sees', cv), ('advance', 5), ('close',)]
     return S
@@ -600,7 +603,7 @@ def cases(tier: str, seed: int):
 
 def floors(tier: str) -> Dict[str, int]:
     return {'transcripts_equal': 150, 'live_transcripts_equal': 100, 'live_batches': 5, 'mode:step-remote': 20, 'mode:thread': 20,
-            'mode:live-threaded': 1, 'mode:live-local': 1, 'mode:live-remote': 1, 'distinct:scenarios': 29,
+            'mode:live-threaded': 1, 'mode:live-local': 1, 'mode:live-remote': 1, 'distinct:scenarios': 31,
             'tls_front_transcripts_equal': 8, 'storm_batches': 4, 'storm_connections_served': 1500, 'tls_front_followups_answered': 6}
 
 
